@@ -466,6 +466,40 @@ fn project(c: &P2, r: f64, p: &P2) -> Verdict {
     // bounding box of a circle: centre +- r
     let bb = circle.aabb();
     ensure!((bb.mins - (c0 - Vector2::new(r, r))).norm() <= 1e-12 * scale && (bb.maxs - (c0 + Vector2::new(r, r))).norm() <= 1e-12 * scale, "C11/circle_aabb", "circle bounding box is not centre +- r");
+    // the same holds for circles that come out of other constructions (the box is cached at construction, so every way of
+    // producing a circle must produce its own box): a fit started from a different guess, a three-point circle, a seeded
+    // RANSAC circle, and the full and partial arcs made from them
+    {
+        let box_of = |who: &str, k: &Circle2| -> Result<(), Failure> {
+            let sc = k.r() + k.center.coords.norm();
+            let bb = k.aabb();
+            crate::ensure_r!((bb.mins - (k.center - Vector2::new(k.r(), k.r()))).norm() <= 1e-9 * sc && (bb.maxs - (k.center + Vector2::new(k.r(), k.r()))).norm() <= 1e-9 * sc, format!("C11/circle_aabb/{who}"), "bounding box [{:?}, {:?}] of a circle from {who} is not centre {:?} +- r {:e}", bb.mins, bb.maxs, k.center, k.r());
+            let fa = k.to_arc();
+            let fb = *fa.aabb();
+            crate::ensure_r!((fb.mins - bb.mins).norm() <= 1e-9 * sc && (fb.maxs - bb.maxs).norm() <= 1e-9 * sc, format!("C11/arc_aabb/full_arc_of/{who}"), "bounding box of the full arc of a circle from {who} differs from the circle's");
+            Ok(())
+        };
+        let on: Vec<Point2> = (0..12).map(|k| { let t = 0.37 + k as f64 * 0.5; c0 + Vector2::new(t.cos(), t.sin()) * r }).collect();
+        let guess = Circle2::new(p.x, p.y, r * 1.7);
+        if (p - c0).norm() < 0.3 * r {
+            if let Ok(Ok(f)) = guarded(|| Circle2::fitting_circle(&on, &guess, engeom::common::BestFit::All).map_err(|e| e.to_string())) {
+                cx.label("box_of_fitted_circle");
+                if let Err(e) = box_of("fitting_circle", &f) {
+                    return Verdict::Fail(e);
+                }
+            }
+        }
+        if let Ok(t) = Circle2::from_3_points(on[0], on[3], on[7]) {
+            if let Err(e) = box_of("from_3_points", &t) {
+                return Verdict::Fail(e);
+            }
+        }
+        if let Ok(Ok(k)) = guarded(|| Circle2::ransac(&on, 1e-6 * r, None, None, None).map_err(|e| e.to_string())) {
+            if let Err(e) = box_of("ransac", &k) {
+                return Verdict::Fail(e);
+            }
+        }
+    }
     if c0.coords.norm() > 1e-6 {
         cx.nontrivial();
     }
